@@ -1,6 +1,6 @@
 (* C19 -- Diagnostics are complete and never spurious (partial: see MANIFEST level text). *)
 From Rimu Require Import Base Unicode Regex RegexAnalysis RegexParse Str Types Tables Guards State Inline Block
-  Frame FrameBlock FrameInst OptionsLemmas MiscLemmas MoreLemmas Plain TableFacts Rel RelBlock RelApi PlainDoc Lines.
+  Frame FrameBlock FrameInst OptionsLemmas MiscLemmas MoreLemmas Plain TableFacts Rel RelBlock RelApi PlainDoc Lines MatchExact MacroSubst.
 
 (* every inline computation run by the block layer changes nothing but the diagnostic log *)
 Theorem C19_lift_only_logs : forall A (f : ienv -> I A) s a s', lift f s = Ok (a, s') -> exists l, s' = set_log s l.
@@ -74,3 +74,14 @@ Example C19_ex :
   | Ok (_, s) => map snd (s_log s)
   | _ => [] end = [$"undefined macro: {nosuch}: {nosuch}"; $"unterminated division block: .."].
 Proof. vm_compute. reflexivity. Qed.
+
+(* COMPLETE AND NOT SPURIOUS at one fault site, for every surrounding text: the invocation of an undefined macro in text with no
+   other brace or backslash is left exactly as written and reported by exactly one diagnostic naming the invocation and the text;
+   (the defined case, C11_simple_invocation, and the escaped case, C17_escaped_invocation, report nothing) *)
+Theorem C19_undefined_macro_reported : forall sr s pre name post,
+  quiet pre -> quiet post -> name_ok name -> getValue s name = None ->
+  let text := pre ++ 123 :: name ++ 125 :: post in
+  macros_render sr s text false =
+  Ok (text, [$"undefined macro: " ++ (123 :: name ++ [125]) ++ $": " ++ pre ++ (123 :: name ++ [125]) ++ post]).
+Proof. exact undefined_invocation. Qed.
+Print Assumptions C19_undefined_macro_reported.
